@@ -82,7 +82,7 @@ def run(tier, mode):
         sp = r.choice(spellings_partial(t, ns, g, ew, has_ns, has_ew))
         text = sp + ' Sec 14: NE/4'
         texts.append(text)
-        channel = r.choice(['config', 'keyword', 'master', 'cfg_ns_kw_ew', 'cfg_ew_kw_ns'])
+        channel = r.choice(['config', 'keyword', 'master', 'cfg_ns_kw_ew', 'cfg_ew_kw_ns', 'master_after_init'])
         old = (MC.default_ns, MC.default_ew)
         try:
             if channel == 'config':
@@ -93,6 +93,10 @@ def run(tier, mode):
                 d = H.call(lambda: (lambda o: (o.parse(default_ew=ew), o)[1])(pytrs.PLSSDesc(text, config=f'{ns},wait_to_parse')))
             elif channel == 'cfg_ew_kw_ns':
                 d = H.call(lambda: (lambda o: (o.parse(default_ns=ns), o)[1])(pytrs.PLSSDesc(text, config=f'{ew},wait_to_parse')))
+            elif channel == 'master_after_init':   # the MasterConfig default in force when parse() is called, not when the object was made
+                o = pytrs.PLSSDesc(text, wait_to_parse=True)
+                MC.default_ns, MC.default_ew = ns, ew
+                d = H.call(lambda: (o.parse(), o)[1])
             else:
                 MC.default_ns, MC.default_ew = ns, ew
                 d = H.call(pytrs.PLSSDesc, text)
@@ -133,6 +137,22 @@ def run(tier, mode):
                 want = [f'{t}{ns}{g}{ew}14', f'{t2}{ns}{g2}{ew}22', f'{t}{ns}{g}{ew}03']
                 if isinstance(d, H.Exn) or [x.trs for x in d.tracts] != want or f'fixed_twprge<{short}>' not in d.w_flags:
                     fail('multi_twprge', {'text': text, 'defaults': [ns, ew]}, d if isinstance(d, H.Exn) else [[x.trs for x in d.tracts], d.w_flags], [want, f'fixed_twprge<{short}>'])
+    # a Twp/Rge lacking E/W followed by one that starts with the same text but spells its direction: the explicit one is kept
+    for i in range(40 if tier == 'quick' else 400):
+        t, g = r.choice(NUMS), r.choice([x for x in NUMS if x != 2])
+        ns, dew = r.choice('ns'), r.choice('ew')
+        ew2 = 'e' if dew == 'w' else 'w'
+        first = r.choice([f'T{t}{ns.upper()}-R{g}', f'T{t}{ns.upper()} R{g}', f'Township {t} {FULL[ns]}, Range {g}'])
+        second = r.choice([f'T{t}{ns.upper()}-R{g}{ew2.upper()}', f'T{t}{ns.upper()} R{g}{ew2.upper()}', f'Township {t} {FULL[ns]}, Range {g} {FULL[ew2]}'])
+        text = f'{first} Sec 1: NE/4, {second} Sec 6: NW/4'
+        d = H.call(pytrs.PLSSDesc, text, config=dew)
+        n_or += 1
+        dist['multi'] += 1
+        want = [f'{t}{ns}{g}{dew}01', f'{t}{ns}{g}{ew2}06']
+        if isinstance(d, H.Exn) or [x.trs for x in d.tracts] != want:
+            fail('explicit_after_partial', {'text': text, 'config': dew}, d if isinstance(d, H.Exn) else [[x.trs for x in d.tracts], d.pp_desc], want)
+        else:
+            texts.append(text)
     d = H.call(pytrs.PLSSDesc, 'TlSN-R2W Sec 14: NE/4', config='ocr_scrub')
     n_or += 1
     if isinstance(d, H.Exn) or [x.trs for x in d.tracts] != ['15n2w14']:
